@@ -120,6 +120,10 @@ def run_family(prop, tier, propfile, components, oracle, n_quick, n_thorough, ru
       dist['constraint:' + k] += k in case.get('par_final', {})
     dist['history:%s' % (case.get('history') or 'fresh-object')] += 1
     dist['zero-sum-geo'] += 'zero_sum_geo' in case
+    dist['volume-drift-with-short-window'] += 'drift' in case
+    if case.get('history') == 'second-matcher':
+      eff = [out.get('other_index_installed')] + [out[nm].get('other_index_installed') for nm in ('exhaustive', 'greedy') if nm in out]
+      dist['history:second-matcher left another geo index on the shared data object'] += any(e is True for e in eff)
     if isinstance(gi, list) and 'pairs' in out:
       dist['ties'] += search.has_ties(out)
     nt = nontrivial(case, out) if nontrivial else (isinstance(gi, list) and len(gi) >= 2)
